@@ -2,6 +2,7 @@ import Driver.Rns
 import Driver.Notif
 import Driver.Mint
 import Driver.Filetree
+import Driver.Storage
 open Lean (Json)
 
 /-- Line protocol: one JSON step record per line on stdin; one verdict line per record on stdout:
@@ -19,6 +20,7 @@ def checkLine (line : String) : String :=
       | "notif" => Driver.Notif.check j
       | "mint" => Driver.Mint.check j
       | "filetree" => Driver.Filetree.check j
+      | "storage" => Driver.Storage.check j
       | "path" => Driver.Filetree.checkPath j
       | "panic" => .ok (some s!"panic {(j.getObjValAs? String "where").toOption.getD ""}: {(j.getObjValAs? String "panic").toOption.getD ""}")
       | m => .error s!"unknown mod {m}"
